@@ -2,7 +2,10 @@ package main
 
 import (
 	"fmt"
+	"go/constant"
 	"go/token"
+	"go/types"
+	"math"
 	"strings"
 
 	"golang.org/x/tools/go/ssa"
@@ -470,26 +473,24 @@ func checkEvaluator(pl *pool, rt *ssa.Function) {
 	names := map[int64]string{pl.Ready: "READY", pl.Connecting: "CONNECTING", pl.TF: "TRANSIENT_FAILURE"}
 	seen := map[int64]bool{}
 	nret := 0
-	eachInstr(rt, func(in ssa.Instruction) {
-		r, ok := in.(*ssa.Return)
-		if !ok {
-			return
-		}
+	for _, vr := range cs.VirtualReturns() {
+		// (a merged `return aggregated` is split per way of arriving)
+		r := vr.Ret
 		nret++
-		v, isC := constInt(r.Results[0])
+		v, isC := constInt(vr.Vals[0])
 		if !isC {
-			c.fail("C04.eval", fmt.Sprintf("recordTransition return#%d", nret), p.ipos(r), "evaluator returns a non-constant state: "+vstr(r.Results[0]))
-			return
+			c.fail("C04.eval", fmt.Sprintf("recordTransition return#%d", nret), p.ipos(r), "evaluator returns a non-constant state: "+vstr(vr.Vals[0]))
+			continue
 		}
 		w, known := want[v]
 		if !known {
 			c.fail("C04.eval", fmt.Sprintf("recordTransition return#%d", nret), p.ipos(r), fmt.Sprintf("evaluator returns state %d which is not one of READY/CONNECTING/TRANSIENT_FAILURE", v))
-			return
+			continue
 		}
 		seen[v] = true
-		eq, wit := cs.Equiv(cs.OnlyNamed(cs.Reach(r)), cs.OnlyNamed(w))
+		eq, wit := cs.Equiv(cs.OnlyNamed(vr.Cond), cs.OnlyNamed(w))
 		c.check(eq, "C04.eval", "recordTransition returns "+names[v], p.ipos(r), "decision list position matches READY > CONNECTING > TRANSIENT_FAILURE", "aggregate "+names[v]+" is returned under the wrong condition: "+wit)
-	})
+	}
 	c.check(len(seen) == 3, "C04.eval", "recordTransition: three outcomes", p.pos(rt.Pos()), "all three aggregate states are produced", "evaluator does not produce all three aggregate states")
 	// counter/state agreement and ±1. Two accepted shapes:
 	//  A) one store per counter inside a range over [old,new]: counter += 2·idx−1 for the element's state;
@@ -518,7 +519,18 @@ func checkEvaluator(pl *pool, rt *ssa.Function) {
 			c.fail("C04.eval", construct, p.ipos(st), "counter is not updated by adding/subtracting to its own value: "+vstr(st.Val))
 			continue
 		}
-		if d, isC := constInt(bo.Y); isC && (d == 1 || d == -1) {
+		d, isC := constInt(bo.Y)
+		if !isC {
+			// the counters are unsigned 64-bit: adding 2^64−1 (written ^uint64(0)) is subtracting one
+			if k, isK := stripConv(bo.Y).(*ssa.Const); isK && k.Value != nil && k.Value.Kind() == constant.Int {
+				if u, exact := constant.Uint64Val(k.Value); exact && u == math.MaxUint64 {
+					if b, isBasic := bo.Type().Underlying().(*types.Basic); isBasic && b.Kind() == types.Uint64 {
+						d, isC = -1, true
+					}
+				}
+			}
+		}
+		if isC && (d == 1 || d == -1) {
 			// shape B
 			delta := d
 			if bo.Op == token.SUB {
